@@ -1,6 +1,6 @@
 // Harness runtime shim. Under symgo every verif* call is intercepted by the
 // engine; natively the functions read the solver's model from $VERIF_REPLAY.
-package schema
+package cmdapi
 
 import (
 	verifjson "encoding/json"
